@@ -89,7 +89,7 @@ func runProp(t *testing.T, d propDef) {
 }
 
 var wTxnMaint = map[string]int{"txn": 10, "begin": 3, "set": 4, "del": 1, "get": 4, "iter": 3, "commit": 3, "discard": 1,
-	"flush": 5, "compact": 8, "backdate": 1, "reopen": 1, "gc": 1, "fill": 4, "l0l0": 1, "churn": 1, "deepen": 2}
+	"flush": 5, "compact": 8, "backdate": 1, "reopen": 1, "gc": 1, "fill": 4, "l0l0": 1, "churn": 1, "deepen": 2, "l0shape": 3}
 
 func TestC12_CompactionPreservesReads(t *testing.T) {
 	runProp(t, propDef{id: "C12", part: "compaction",
@@ -103,7 +103,7 @@ func TestC12_CompactionPreservesReads(t *testing.T) {
 
 // ---- more properties on the same interpreter -------------------------------------------------------
 
-var wSnapshot = map[string]int{"race": 2, "rwscan": 2, "txn": 10, "begin": 6, "set": 3, "del": 1, "get": 8, "gethold": 2, "itemread": 2, "iter": 6, "iterdrain": 2,
+var wSnapshot = map[string]int{"l0shape": 2, "race": 2, "rwscan": 2, "txn": 10, "begin": 6, "set": 3, "del": 1, "get": 8, "gethold": 2, "itemread": 2, "iter": 6, "iterdrain": 2,
 	"commit": 3, "discard": 1, "flush": 4, "compact": 6, "backdate": 1, "gc": 2, "clock": 2, "fill": 3, "churn": 2, "l0l0": 1, "deepen": 1}
 
 func TestC01_SnapshotReads(t *testing.T) {
@@ -155,6 +155,16 @@ func TestC05_Iterators(t *testing.T) {
 	})
 }
 
+func TestC05_IteratorsMultiTable(t *testing.T) {
+	runProp(t, propDef{id: "C05", part: "iterators_multitable",
+		rule: "as part 'iterators' but on trees whose levels >=1 hold several small tables (2 KiB tables, values of several hundred bytes, pool x fan-out keys), so that the per-level table selection (prefix bounds, SinceTs filtering, concatenated iteration, reverse seeks across table boundaries) is exercised. Non-trivial = iterators with a Prefix or SinceTs ran while some level >=1 held >=2 tables.",
+		cfg: GenCfg{DB: dbx.GenCfg{AllowManaged: true, AllowEnc: true, KeepVersions: []int{1, 2, 0}}, MinOps: 10, MaxOps: 40, TTL: true, BigValues: true, MinKeys: 6, MaxKeys: 12,
+			Weights: map[string]int{"fill": 8, "deepen": 4, "txn": 4, "flush": 3, "compact": 5, "iter": 16, "begin": 3, "discard": 1, "l0shape": 1},
+			FixSpec: func(s *dbx.Spec) { s.BaseTableSize = 1 << 11; s.MemTableSize = 1 << 15; s.BlockSize = 512 }},
+		nontrivial: func(s Stats, p Program) bool { return s.MultiTableLevel > 0 && (s.IterPrefix > 0 || s.IterSince > 0) },
+	})
+}
+
 var wValues = map[string]int{"txn": 12, "begin": 3, "set": 6, "get": 6, "gethold": 1, "itemread": 1, "iter": 5, "commit": 3, "flush": 3, "compact": 3, "gc": 2, "churn": 2, "reopen": 2, "fill": 3}
 
 func TestC06_ValuesRoundTrip(t *testing.T) {
@@ -192,6 +202,16 @@ func TestC13_Retention(t *testing.T) {
 		rule:       "rapid-generated version histories (few keys, many overwrites, deletes, WithDiscard entries, TTL entries with a virtual clock) under NumVersionsToKeep in {1,2,3,unbounded}, with the watermark held back by open transactions (normal mode) or moved by SetDiscardTs (managed), and multi-step compactions. Oracle: after every compaction an AllVersions scan must contain every version in mustRetain (all versions above the largest watermark any compaction can have seen; below it the newest N non-merge versions up to and excluding a delete/expired entry, up to and including a discard-earlier entry) and only written versions, in order. Non-trivial = a key with >=2 versions went through >=1 compaction while NumVersionsToKeep > 1 or a transaction/discard timestamp held the watermark back.",
 		cfg:        GenCfg{DB: dbx.GenCfg{AllowManaged: true, AllowInMemory: true, KeepVersions: []int{1, 2, 3, 0}}, MinOps: 10, MaxOps: 60, Weights: wRetention, TTL: true, Discard: true, MinKeys: 2, MaxKeys: 6},
 		nontrivial: func(s Stats, p Program) bool { return s.CompactedMultiVersion > 0 && s.IterAll > 0 },
+	})
+}
+
+func TestC13_RetentionMultiTable(t *testing.T) {
+	runProp(t, propDef{id: "C13", part: "retention_multitable",
+		rule: "as part 'retention' but with many keys (pool x fan-out), values of several hundred bytes and a 2 KiB table size, so that compaction outputs span several tables and the per-key version accounting has to survive table boundaries; NumVersionsToKeep in {2,3,unbounded}. Non-trivial = a level >=1 held >=2 tables after compacting keys with >=2 versions.",
+		cfg: GenCfg{DB: dbx.GenCfg{AllowManaged: true, KeepVersions: []int{2, 3, 0}}, MinOps: 10, MaxOps: 40, TTL: true, Discard: true, BigValues: true, MinKeys: 6, MaxKeys: 12,
+			Weights: map[string]int{"fill": 10, "txn": 6, "deepen": 4, "flush": 4, "compact": 8, "iter": 2, "begin": 2, "discard": 1, "discardts": 2, "clock": 1, "l0shape": 1},
+			FixSpec: func(s *dbx.Spec) { s.BaseTableSize = 1 << 11; s.MemTableSize = 1 << 15; s.BlockSize = 512 }},
+		nontrivial: func(s Stats, p Program) bool { return s.MultiTableLevel > 0 && s.CompactedMultiVersion > 0 },
 	})
 }
 
@@ -262,7 +282,7 @@ var wGC = map[string]int{"churn": 8, "txn": 6, "begin": 4, "get": 4, "gethold": 
 func TestC15_ValueLogGC(t *testing.T) {
 	runProp(t, propDef{id: "C15", part: "gc",
 		rule: "rapid-generated programs built around value log GC: 'churn' macros (values above the threshold written, overwritten or deleted, flushed and compacted so that discard statistics exist, with ValueLogMaxEntries 3..50 forcing file rotation) followed by RunValueLogGC with generated discard ratios, interleaved with commits, deletes, TTL expiry, flushes, picker-driven compactions, re-opens, and with iterators and Get items held open across the GC. Every read before and after is compared with the model (deleted keys must stay deleted after any later compaction/re-open; values of held iterator items must stay readable). Non-trivial = >=1 RunValueLogGC call really rewrote and removed a file and reads followed it.",
-		cfg:        GenCfg{DB: dbx.GenCfg{AllowManaged: true, AllowEnc: true, KeepVersions: []int{1, 2, 0}}, MinOps: 10, MaxOps: 50, Weights: wGC, Hold: true, TTL: true, BigValues: true,
+		cfg: GenCfg{DB: dbx.GenCfg{AllowManaged: true, AllowEnc: true, KeepVersions: []int{1, 2, 0}}, MinOps: 10, MaxOps: 50, Weights: wGC, Hold: true, TTL: true, BigValues: true,
 			FixSpec: func(s *dbx.Spec) {
 				if s.ValueLogMaxEntries > 50 {
 					s.ValueLogMaxEntries = 5
